@@ -89,6 +89,18 @@ CLAIMED = {
         "Trusts SpecSA as the reading of the statement; one instance per class.",
         "3.7",
     ),
+    "C17": (
+        "all 4096 ADC codes x 3 sensors enumerated; Hypothesis-generated voltages (any finite double, +-inf, focused around floor and clamps), voltage pairs and simulated distances; oracles = range, monotonicity (4 eps), second formula c*exp(p*log v) (1e-12), inverse through the sim helper (1e-9)",
+        "Exhaustive over every voltage the 12-bit converter can produce, generated search over all other doubles; pure functions, so input-space exploration with algebraic oracles is the fitting level.",
+        "Trusts AnalogInputSim's pass-through (asserted per case) and libm; NaN is outside the quantifier.",
+        "3.9",
+    ),
+    "C18": (
+        "64 unit triples enumerated; Hypothesis-generated values, user-defined unit chains (depth 1-6), sonar readings x output units, pressure readings x supply voltages x calibrations; oracle = exact Fraction arithmetic with 2^-50-per-operation relative tolerance",
+        "Generated search against an exact-rational reference; identity, round-trip, path independence, linearity and the three constants are all consequences checked explicitly.",
+        "Counter/AnalogInput are stubbed inside the driver modules; values bounded to avoid over/underflow; decimal constants of the statement are the reference.",
+        "3.10",
+    ),
     "C19": (
         "Hypothesis-generated sample/record/operation histories for Toggle (plain and debounced), ButtonDebouncer, PeriodicFilter and SimpleWatchdog under the paused FPGA clock and a substituted monotonic clock; oracles = edge/period rules and documented-behaviour models evaluated on the same doubles / integer microseconds, log capture for the watchdog",
         "Generated search over histories with clock advances placed around every threshold (period, timeout, 1 s print limit); safety rules plus liveness companions keep the rules from being vacuous.",
